@@ -274,6 +274,9 @@ func Finish(r *Reporter, rules []*Rule, kf *KnownFile, verifDir string, seed int
 		"load":                p.LoadStats,
 		"call_graph":          cgKind,
 	}
+	if len(p.Canon.Inlined) > 0 || len(p.Canon.Kept) > 0 || len(p.Canon.Aliases) > 0 || p.Canon.Note != "" {
+		cov["canonicalisation"] = p.Canon
+	}
 	for k, v := range extra {
 		cov[k] = v
 	}
